@@ -15,7 +15,12 @@ invariants in every state.  The alphabets include scoped enumerations with expli
 types (char, long long) as parameters / results / data members, `const std::string *` parameters,
 array data members (int[3], float[2]: setter; an array of objects: getter), compound-assignment
 operators returning *this, an int or an object by value, and  int &operator [](K)  (exported as the
-item-assignment wrapper).  TLC dumps every complete behaviour with the expected result and the
+item-assignment wrapper), prefix / postfix ++ and -- (prefix returns the operand itself, postfix a NEW
+object holding the OLD value), plain binary operators, and VIRTUAL member functions of K0 that K1,
+Mix and K3 override: which body runs is decided by the object's class (ground truth base_ptr->f()),
+whether the call goes through K0's wrapper with the database's upcast or through the wrapper of the
+object's own class (Mix, K3; a class with one non-virtual base does not re-export an override).
+TLC dumps every complete behaviour with the expected result and the
 state (st, bst, payload) of EVERY live object - `this`, arguments, bystanders - after every step.
 
 Replay: the libraries are packed into class families and rendered (vf/wraplib.py) to one header +
@@ -507,6 +512,11 @@ def run_check(ctx):
     ctx.assumptions.append("the query interface does not expose the underlying type of an enumeration (enumerator values are "
                            "reported as int): the -c driver sizes the two scoped enumerations of the generated header (EnC : "
                            "char, EnL : long long) as declared there; every other C type is taken from the database")
+    ctx.notes["outside_alphabet"] = ("class-typed data members: the getter of a member whose type is a typedef of a class returns "
+                                     "a copy (new T_t((param0)->m)) where a member declared with the class name returns "
+                                     "&(param0)->m (scan_element tests as_struct_type() on the unresolved typedef); for a "
+                                     "non-copyable class the generated code does not compile - reproduced by hand, not in the "
+                                     "enumerated domain")
     ctx.notes["nodb"] = ("every option set adds -nodb (the generated file then needs no dtool headers); the database is still "
                          "written with -od and is what drives every call")
     ctx.notes["destructors"] = ("neither back-end emits a destructor wrapper (InterfaceMaker::record_object never records "
